@@ -5,8 +5,8 @@ import json, os, shutil, sys
 pid, letter = sys.argv[1], sys.argv[2]
 caught = json.loads(sys.argv[3])
 missed = sys.argv[5] if len(sys.argv) > 5 and sys.argv[4] == "--missed-first" else None
-src = f"/tmp/seeds/out_{pid}"
-dst = os.path.join(os.path.dirname(os.path.dirname(os.path.abspath(__file__))), "seeded", f"{pid}-{letter}")
+src = os.environ.get("SEED_SRC") or f"/tmp/seeds/out_{pid}"
+dst = os.path.join(os.path.dirname(os.path.dirname(os.path.abspath(__file__))), "seeded", f"{pid}-{os.environ.get('SEED_TAG', '')}{letter}")
 os.makedirs(dst, exist_ok=True)
 shutil.copy(f"{src}/{letter}.diff", f"{dst}/patch.diff")
 shutil.copy(f"{src}/demo_{letter}.py", f"{dst}/demo.py")
